@@ -68,6 +68,7 @@ func c12Singles(w *model.World) (out []c12Op) {
 		c12Op{act: model.Act{Op: "rekey", Key: "a", NewKey: "c"}, key: "a", writes: true},
 		c12Op{act: model.Act{Op: "rekey", Key: "c", NewKey: "a"}, key: "c", writes: true},
 		c12Op{act: model.Act{Op: "insertkey", Key: "a", FailCb: true}, key: "a"},
+		c12Op{act: model.Act{Op: "upsertkey", Key: "b", W: set(40), FailCb: true}, key: "b"},
 	)
 	if rows := w.M.RowsOfKey("a"); len(rows) == 1 {
 		out = append(out, c12Op{act: model.Act{Op: "del", Off: rows[0]}, key: "a", deletes: true})
